@@ -6,9 +6,12 @@ only returns valid parse trees.
 -/
 import Pfl.Model.LL1Lib
 import Pfl.Props.C14_LL1
+import Pfl.Proofs.LL1LibFirst
+import Pfl.Proofs.LL1LibParse
+import Pfl.Proofs.LL1LibFollow
 namespace Pfl
 namespace LL1Lib
-open CFG
+open CFG Lem
 
 /-- FIRST of a variable, as the worklist leaves it: exactly the terminals that can begin a word
 of the variable, `Epsilon` exactly when the variable is nullable, never the end marker -/
@@ -16,14 +19,14 @@ theorem firstSet_spec (G : CFG) (hg : G.AllGenerating) (hG : G.WF) (fuel : Nat)
     (F : SetMap Sym Look) (h : firstSet G fuel = some F) (v : String) (hv : v ∈ G.vars) :
     (∀ t, Look.ter t ∈ getD F (.var v) ↔ ∃ w, G.Gen (.var v) (t :: w)) ∧
     (Look.eps ∈ getD F (.var v) ↔ G.Gen (.var v) []) ∧
-    Look.eof ∉ getD F (.var v) := by
-  sorry
+    Look.eof ∉ getD F (.var v) :=
+  firstSet_sem G (fun p hp => (hg p hp).2) hG fuel F h (.var v) (fun t e => by cases e)
 
 /-- FIRST of a terminal is the terminal -/
 theorem firstSet_ter (G : CFG) (hG : G.WF) (fuel : Nat)
     (F : SetMap Sym Look) (h : firstSet G fuel = some F) (t : String) (ht : t ∈ G.ters) :
-    getD F (.ter t) = [Look.ter t] := by
-  sorry
+    getD F (.ter t) = [Look.ter t] :=
+  firstSet_ters G fuel F h t ht
 
 /-- FOLLOW of a variable, as the worklist leaves it, is the reference FOLLOW (hence, by
 `mem_followSets_iff`, the textbook set when every head is reachable) -/
@@ -32,7 +35,8 @@ theorem followSet_spec (G : CFG) (hg : G.AllGenerating) (hG : G.WF) (fuel : Nat)
     (∀ t, Look.ter t ∈ getD Fo (some (.var v)) ↔ (v, some t) ∈ G.followSets) ∧
     (Look.eof ∈ getD Fo (some (.var v)) ↔ (v, none) ∈ G.followSets) ∧
     Look.eps ∉ getD Fo (some (.var v)) := by
-  sorry
+  have h' := followSet_spec' G (fun p hp => (hg p hp).2) hG fuel Fo h v
+  exact ⟨fun t => h'.1 (some t), h'.1 none, h'.2⟩
 
 /-- the table holds production `p` in column `a` of row `p.1` exactly when `a` is in the
 predict set of `p` -/
@@ -43,17 +47,19 @@ theorem table_spec (G : CFG) (hg : G.AllGenerating) (hG : G.WF) (fuel : Nat)
        | .ter t => some t ∈ G.predict p
        | .eof => none ∈ G.predict p
        | .eps => False) := by
-  sorry
+  obtain ⟨F, Fo, hF, hFo, rfl⟩ := table_eq G fuel tb h
+  rw [tableOf_spec G (fun p hp => (hg p hp).2) hG fuel F Fo hF hFo]
+  cases a <;> exact Iff.rfl
 
 /-- `is_llone_parsable` decides the LL(1) condition -/
 theorem isLLOne_iff (G : CFG) (hg : G.AllGenerating) (hG : G.WF) (hnd : G.prods.Nodup) (fuel : Nat)
-    (b : Bool) (h : isLLOne G fuel = some b) : b = G.isLL1 := by
-  sorry
+    (b : Bool) (h : isLLOne G fuel = some b) : b = G.isLL1 :=
+  isLLOne_iff' G (fun p hp => (hg p hp).2) hG hnd fuel b h
 
 /-- whatever tree the stack machine returns is a parse tree of the word -/
 theorem parse_valid (G : CFG) (w : List String) (fuel : Nat) (t : PTree)
-    (h : parse G w fuel = some (some t)) : G.treeValid t w = true := by
-  sorry
+    (h : parse G w fuel = some (some t)) : G.treeValid t w = true :=
+  parse_valid' G w fuel t h
 
 end LL1Lib
 end Pfl
